@@ -112,6 +112,43 @@ def pipe_case(rng):
     return src, result, log
 
 
+def prefixed_pipe_case(rng):
+    """expression := (type ':')? line ('|' expression)?  — a type prefix on a later alternative takes the whole rest"""
+    caught = (AttributeError, NameError, LookupError, TypeError, ValueError)
+    n = rng.randint(2, 4)
+    alts = []
+    for i in range(n):
+        exc = rng.choice([None, None, 'KeyError', 'NameError', 'TypeError', 'ZeroDivisionError', 'IndexError', 'AttributeError', 'ValueError'])
+        pfx = rng.choice(['', '', 'not: ', 'python: ', 'not:']) if i > 0 else rng.choice(['', '', 'not: '])
+        val = rng.choice(['v%d' % i, ''])
+        alts.append((pfx, 'k%d' % i, val, exc))
+    src = '<p tal:content="%s">x</p>' % ' | '.join("%sR('%s', '%s'%s)" % (p, k, v, (", '%s'" % e) if e else '') for p, k, v, e in alts)
+    log = []
+
+    def plain(i):
+        p, k, v, e = alts[i]
+        log.append(k)
+        if e is None:
+            return ('val', v)
+        if issubclass(getattr(builtins, e), caught) and i < n - 1:
+            return ev(i + 1)
+        return ('exc', e)
+
+    def ev(i):
+        p = alts[i][0].strip()
+        r = plain(i)
+        if p == 'not:' and r[0] == 'val':
+            return ('val', not bool(r[1]))
+        return r
+    r = ev(0)
+    if r[0] == 'val':
+        v = r[1]
+        result = ('out', '<p>%s</p>' % (v if isinstance(v, str) else str(v)))
+    else:
+        result = r
+    return src, result, log
+
+
 def correspondence(ctx):
     gen = []
     for _ in range(ctx.budget(1500, 60000)):
@@ -131,7 +168,7 @@ def oracle(ctx):
     nt = 0
     # pipes: first alternative that does not raise a lookup-type exception; others propagate; evaluated once, in order
     for _ in range(ctx.budget(600, 20000)):
-        src, result, log = pipe_case(ctx.rng)
+        src, result, log = pipe_case(ctx.rng) if ctx.rng.random() < 0.6 else prefixed_pipe_case(ctx.rng)
         impl = pipeline.run_impl({'src': src, 'vars': [['R', {'fn': 'R'}]]})
         ctx.count('evaluations')
         nt += 1 if len(log) > 1 else 0
